@@ -56,8 +56,10 @@ func fieldsFor(level string) map[string][]string {
 	}
 }
 
-var dirVariants = []string{"@skip(if:true)", "@skip(if:$f)", "@include(if:false)", "@include(if:$t)"}
-var dirVariantsQuick = []string{"@skip(if:$t)", "@include(if:true)"}
+// (both directives on one node, in both orders: neither may shadow the other)
+var dirVariants = []string{"@skip(if:true)", "@skip(if:$f)", "@include(if:false)", "@include(if:$t)",
+	"@include(if:$t) @skip(if:$t)", "@skip(if:$f) @include(if:$f)", "@include(if:true) @skip(if:false)", "@skip(if:true) @include(if:true)"}
+var dirVariantsQuick = []string{"@skip(if:$t)", "@include(if:true)", "@include(if:$t) @skip(if:$t)", "@skip(if:$f) @include(if:$f)"}
 
 // alternatives returns the non-default outcomes applicable at a position.
 func alternatives(p Position, withPanic, thorough bool) []string {
@@ -74,6 +76,8 @@ func alternatives(p Position, withPanic, thorough bool) []string {
 			return []string{"null", "alt"}
 		}
 		return []string{"null"}
+	case "opdirective":
+		return []string{"error"}
 	case "unmarshal", "interceptor":
 		out = []string{"error"}
 	case "directive":
